@@ -368,11 +368,28 @@ def rule_AT3(ctx, tier):
             rr.fail("charge-store-not-atomic",
                     "no lock is held from `Gatekeeper::add_update_appointment` to the store call in `Watcher::add_appointment` (held at charge: %s): two concurrent submissions of the same new appointment both see 'not stored yet' and are both charged" % sorted(R.short(x) for x in at_charge),
                     where=b.line_of(c))
-    # charge strictly before store on every path (crash in between costs the in-flight slots, never grants any)
+    return rr
+
+
+def rule_CBS(ctx, tier):
+    rr = RuleResult("CBS", "slots are charged before the appointment is stored (a crash in between costs the in-flight request's slots, never grants any)")
+    b = ctx.prog.require(ADD_APPOINTMENT)
+    stores = [bb for bb, t in b.calls() if call_names(t) & {STORE_APPT, STORE_TRIG}]
+    if not stores:
+        rr.anchor_missing("store_* calls in add_appointment")
+        return rr
     before = ctx.pf.called_before(b)
     for s in stores:
         if ADD_UPDATE_APPT in before.get(s, set()):
-            rr.ok("charge-before-store@%d" % s, sample={"rule": "AT3", "Gatekeeper::add_update_appointment precedes": call_target(b.term(s))})
+            rr.ok("charge-before-store@%s" % call_target(b.term(s)), sample={"rule": "CBS", "Gatekeeper::add_update_appointment precedes": call_target(b.term(s))})
         else:
             rr.fail("store-before-charge:%s" % call_target(b.term(s)), "an appointment can be stored on a path that has not charged the slots", where=b.line_of(s))
+    # and the charge succeeded (Ok) on that path
+    from .rulekit import variant_fact
+    for s in stores:
+        if variant_fact(ctx, b, s, "Continue", "Gatekeeper::add_update_appointment"):
+            rr.ok("store only if the charge succeeded@%s" % call_target(b.term(s)))
+        else:
+            rr.fail("store-without-successful-charge:%s" % call_target(b.term(s)), "the appointment is stored although add_update_appointment may have failed (NotEnoughSlots)", where=b.line_of(s))
+    rr.require_floor(4, "CBS instances")
     return rr
